@@ -104,6 +104,10 @@ pub fn is_big_number(tok: &[u8]) -> bool {
     }
 }
 
+pub fn is_string(tok: &[u8]) -> bool {
+    tok.first() == Some(&b'"')
+}
+
 pub fn draw(rng: &mut Rng, src: &[u8], donors: &[Vec<u8>]) -> Mutation {
     let toks = tokens(src);
     let sig = significant(&toks);
@@ -124,7 +128,7 @@ pub fn draw(rng: &mut Rng, src: &[u8], donors: &[Vec<u8>]) -> Mutation {
             }
             25..=34 => {
                 let (a, b) = (*rng.pick(&sig), *rng.pick(&sig));
-                if is_big_number(toks[a]) || is_big_number(toks[b]) {
+                if is_big_number(toks[a]) || is_big_number(toks[b]) || is_string(toks[a]) != is_string(toks[b]) {
                     continue;
                 }
                 Mutation::SwapTokens(a, b)
@@ -143,6 +147,14 @@ pub fn draw(rng: &mut Rng, src: &[u8], donors: &[Vec<u8>]) -> Mutation {
                 if is_big_number(t) {
                     continue;
                 }
+                // a string literal is also a (large) integer: only ever put
+                // one where a string already stood
+                let at = *rng.pick(&sig);
+                if is_string(t) != is_string(toks[at]) {
+                    continue;
+                }
+                return Mutation::Transplant { at, text: String::from_utf8_lossy(t).to_string() };
+                #[allow(unreachable_code)]
                 Mutation::Transplant { at: *rng.pick(&sig), text: String::from_utf8_lossy(t).to_string() }
             }
             60..=79 => Mutation::InsertBytes { at: rng.below(src.len() + 1), bytes: rng.pick(NON_ASCII).to_vec() },
